@@ -146,7 +146,7 @@ static std::unique_ptr<Setup> make_setup(Rng& rng, int max_steps) {
             total(a, b) += h.th(a, b);
         }
     }
-    auto suit = find_suitable_cells<int>(total);
+    auto suit = suitable_cells_of(total);
     for (auto& h : S.hosts) h.suitable = suit;
     Config& config = S.config;
     config.rows = rows; config.cols = cols; config.ew_res = 30; config.ns_res = 30;
